@@ -641,7 +641,7 @@ def _with_sources(body, k):
 
 def generate(prop, tier, seed, scale=1):
     rng = random.Random("%s-%s" % (prop, seed))
-    n = (700 if tier == "quick" else 30000) * scale
+    n = (700 if tier == "quick" else 20000) * scale
     cases = []
     for i in range(n):
         # C11 wants mostly in-domain arguments, C10 wants the hostile ones too
